@@ -100,7 +100,8 @@ Proof. exact PropFlags.step_noemit. Qed.
 Print Assumptions C11_no_signal_left_emitting.
 
 (* VALUES across a move construction (PropMove.v): the destination holds the value and the updater of the source, the source keeps
-   its value and has no updater, no subscription appears or disappears, every binding is alive as before ... *)
+   its value and has no updater, no subscription appears or disappears, every binding is alive as before, and the three public
+   signals (with every observer and reader subscribed to them) now belong to the destination, the source has fresh empty ones ... *)
 Theorem C11_property_move_construction_transfers :
   forall fn rtl fuel w src dst w',
     PropLink.pinv w -> PropSim.NOACT w -> PropFlags.NOEMIT w ->
@@ -116,7 +117,10 @@ Theorem C11_property_move_construction_transfers :
                                       PropSim.abs_tree (PropDefs.b_root x') =
                                       option_map (PropMove.aren (PropMove.rn src dst)) (PropSim.abs_tree (PropDefs.b_root x))
                  | None, None => True
-                 | _, _ => False end).
+                 | _, _ => False end) /\
+      (PropDefs.pr_about dn = PropDefs.pr_about s0 /\ PropDefs.pr_changed dn = PropDefs.pr_changed s0 /\
+       PropDefs.pr_destroyed dn = PropDefs.pr_destroyed s0 /\
+       PropDefs.pr_about sn = None /\ PropDefs.pr_changed sn = None /\ PropDefs.pr_destroyed sn = None).
 Proof. exact PropMove.movector_shape. Qed.
 Print Assumptions C11_property_move_construction_transfers.
 
